@@ -112,6 +112,12 @@ func (x *c01) flush() {
 	x.last = x.totalAlloc()
 }
 
+// optional restrictions a check may place on the shared generators (nil = everything)
+var (
+	genSeedFilter   func(s seed) bool
+	genHeaderFilter func(pt, cnt int) bool
+)
+
 // byteSink receives the enumerated byte strings. all: every entry point;
 // near: the datagram decoder and the seed's own decoder; addressed: the
 // entries a header with this packet type addresses plus the type-less ones.
@@ -234,6 +240,9 @@ func genS2(c *bx.Ctx, x byteSink) {
 	buf := make([]byte, maxBuf)
 	for _, pt := range pts {
 		for _, cnt := range counts {
+			if genHeaderFilter != nil && !genHeaderFilter(pt, cnt) {
+				continue
+			}
 			for _, hl := range wrapLens {
 				if !c.MineBlock(0) {
 					continue
@@ -313,6 +322,9 @@ func genS3(c *bx.Ctx, x byteSink) {
 	seeds := byteSeeds(c.Thorough())
 	c.Note(fmt.Sprintf("S3 seeds: %d", len(seeds)))
 	for _, s := range seeds {
+		if genSeedFilter != nil && !genSeedFilter(s) {
+			continue
+		}
 		typ := s.typ
 		sendNear := func(b []byte) { x.near(typ, b) }
 		sendAll := x.all
